@@ -117,20 +117,12 @@ func (s *Sched) Activate(selMode uint64) {
 	active.Store(s)
 }
 
-// Deactivate removes the scheduler and releases everything still parked so
-// that no goroutine stays blocked on the scheduler itself.
+// Deactivate removes the scheduler. Goroutines that are still parked stay
+// blocked for ever (durably, on their private channel): a run that ends with
+// parked goroutines is an abnormal end, the bubble then reports them as leaked.
 func (s *Sched) Deactivate() {
 	active.CompareAndSwap(s, nil)
 	verifSetSelectHook(nil)
-	s.mu.Lock()
-	for g := range s.parked {
-		select {
-		case g.wake <- struct{}{}:
-		default:
-		}
-	}
-	s.parked = make(map[*G]struct{})
-	s.mu.Unlock()
 }
 
 // Active reports whether a scheduler is installed.
@@ -355,7 +347,7 @@ func (s *Sched) lockID(c *rwcore) int {
 	return c.id
 }
 
-func (s *Sched) lock(c *rwcore, write bool, site string) {
+func (s *Sched) lock(c *rwcore, write bool, site string) (acquired bool) {
 	g := s.me(site)
 	id := s.lockID(c)
 	isDriver := verifGoid() == s.driver
@@ -383,10 +375,10 @@ func (s *Sched) lock(c *rwcore, write bool, site string) {
 				}
 				s.OnLock(g, id, k)
 			}
-			return
+			return true
 		}
 		if active.Load() != s {
-			return
+			return false // scheduler went away while waiting: caller falls back to the real lock
 		}
 		if isDriver {
 			panic("verifsim: the driver goroutine needs a simulated lock that is held by a parked goroutine")
@@ -428,8 +420,7 @@ type Mutex struct {
 }
 
 func (m *Mutex) Lock() {
-	if s := active.Load(); s != nil {
-		s.lock(&m.c, true, "lock")
+	if s := active.Load(); s != nil && s.lock(&m.c, true, "lock") {
 		return
 	}
 	m.real.Lock()
@@ -464,8 +455,7 @@ type RWMutex struct {
 }
 
 func (m *RWMutex) Lock() {
-	if s := active.Load(); s != nil {
-		s.lock(&m.c, true, "lock")
+	if s := active.Load(); s != nil && s.lock(&m.c, true, "lock") {
 		return
 	}
 	m.real.Lock()
@@ -480,8 +470,7 @@ func (m *RWMutex) Unlock() {
 }
 
 func (m *RWMutex) RLock() {
-	if s := active.Load(); s != nil {
-		s.lock(&m.c, false, "rlock")
+	if s := active.Load(); s != nil && s.lock(&m.c, false, "rlock") {
 		return
 	}
 	m.real.RLock()
